@@ -198,6 +198,18 @@ def run_case(case):
                                               if i in narrow else stack[ch0, i])
                 img.save(os.path.join(p, f"{names[i]}.{fmt}"))
             ch0 += 3 if kind_ == "rgb" else 1
+            if case["vseed"] % 5 == 2 and ns >= 2:
+                # the slice directory holds symbolic links; the files they point to live
+                # elsewhere under names that sort differently (the order is that of the
+                # names IN the slice directory)
+                raw_dir = os.path.join(top, f"raw{d}")
+                os.makedirs(raw_dir)
+                entries = sorted(os.listdir(p))
+                for j, name in enumerate(entries):
+                    target = os.path.join(raw_dir, f"section_{len(entries) - j:04d}_{name}")
+                    os.rename(os.path.join(p, name), target)
+                    os.symlink(target, os.path.join(p, name))
+                obs["slice_directories_of_symbolic_links"] = 1
         exp, size = expected(np, stack, code)
         if out_dt != dt:
             exp = (np.clip(exp, 0, 65535) if out_dt.kind == "u" else exp).astype(out_dt)
@@ -302,6 +314,8 @@ def gates(obs, tier):
         "stacks_mixing_8_and_16_bit_slices": obs.get(
             "stacks_mixing_8_and_16_bit_slices", 0) > 5,
         "uint64_label_slices": obs.get("uint64_slices", 0) > 10,
+        "slice_directories_of_symbolic_links": obs.get(
+            "slice_directories_of_symbolic_links", 0) > 10,
         "signed_pixels_with_negative_values": obs.get("signed_pixels_into_other_type", 0) > 20,
         "all_storage_options": len(obs.get("storage", {})) == 5,
         "command_line_runs": obs.get("cli_runs", 0) > 10,
